@@ -1,5 +1,6 @@
 import Percival.Driver.Loop
 import Percival.Model.EntropyStep
+import Percival.Driver.Osent
 /-! `pmodel drbg`: L1 part from `Spec.HmacDrbg.Service` (SP 800-90A used as §9 prescribes), L2 part
 from the model of crypto_entropy.c (output summary, Key, V, reseed_counter, instantiated, number of
 unused OS answers).  Thin by construction: `parse`, `Model.EntropyStep.stepOp`, `render`. -/
@@ -9,6 +10,12 @@ open Percival Percival.Driver Percival.Spec.HmacDrbg Percival.Model.EntropyStep
 def parse : List String → Option Op
   | ["ent", a] => if a = "FAIL" then some (.ent none) else (bytesOfHex a).map fun b => .ent (some b)
   | ["read", ns] => ns.toNat?.map .read
+  -- component `drbgos`: the answer of the OS entropy source is what the model of util/entropy.c makes of one
+  -- scripted open/read…/close session on /dev/urandom asked for `n` bytes (failure = `ent FAIL`)
+  | ["entos", n, stream, script] => do
+      let (openOk, n, st, sc) ← Osent.parse ["osread", n, stream, script]
+      let o := osStep openOk n st sc
+      pure (.ent (if o.ok then some o.got else none))
   | _ => none
 
 def hex64 (n : UInt64) : String :=
